@@ -1786,6 +1786,7 @@ impl PrimitiveValue {
     /// ```
     pub fn to_multi_float64(&self) -> Result<Vec<f64>, ConvertValueError> {
         match self {
+            PrimitiveValue::Empty => Ok(Vec::new()),
             PrimitiveValue::Str(s) => {
                 let out = s
                     .trim_matches(whitespace_or_null)
